@@ -348,7 +348,12 @@ def generate(chk, themes, num, depth, seed, theme_nums=None):
         # then a maintenance run under a margin between the two lifetimes:
         # exactly the CAs with a key set (current, staging or old) inside
         # the margin re-issue, all their sets together
-        src = {"tduring": "life", "tstag": "roll"}.get(theme, theme)
+        # "held": API operations arriving while the scheduler thread is in
+        # the middle of a task (the preceding task step is processed but not
+        # finished until after them: StepHold ... Release); sequentially
+        # equivalent, so the same specification judges it
+        src = {"tduring": "life", "tstag": "roll", "held": "mix"}.get(
+            theme, theme)
         got = vlib.generate_behaviours(
             "MC_Krill_gen", f"MC_Krill_gen_{src}.cfg", chk.out, num=num_here,
             depth=150, seed=seed * 31 + i, drop_last=False, timeout=900)
@@ -397,6 +402,29 @@ def generate(chk, themes, num, depth, seed, theme_nums=None):
                                 "margin": MARGIN_HOURS * 3600},
                                {"a": "RestartNormal"}]
                             + acts[k + 1:])
+            if theme == "held":
+                rnd = random.Random(seed * 104729 + len(acts) + i)
+                out, k = [], 0
+                while k < len(acts):
+                    a = acts[k]
+                    nxt = acts[k + 1] if k + 1 < len(acts) else {}
+                    if (a.get("a") == "Step" and a.get("task")
+                            and nxt.get("a") not in (None, "Step", "Settle",
+                                                     "Restart")
+                            and rnd.random() < 0.6):
+                        out.append(dict(a, a="StepHold"))
+                        k += 1
+                        n = 0
+                        while (k < len(acts) and n < 2 and acts[k].get("a")
+                               not in ("Step", "Settle", "Restart")):
+                            out.append(acts[k])
+                            k += 1
+                            n += 1
+                        out.append({"a": "Release"})
+                    else:
+                        out.append(a)
+                        k += 1
+                acts = out
             if theme == "agg":
                 # route origins are aggregated per origin AS as soon as a CA
                 # has more than one authorisation (so that one update can
